@@ -170,6 +170,12 @@ func runFrames(res *lp.Result, prop string) {
 							}
 						}
 					}
+					if rng.Intn(3) == 0 {
+						// … and by an encode of this very frame whose destination fails after a few bytes
+						if err := encodeNoPanic(cs.codec, orig.DeepCopy(), &failingWriter{left: rng.Intn(14)}); err != nil {
+							res.Count("history/failing-destination")
+						}
+					}
 					var buf bytes.Buffer
 					if err := cs.codec.EncodeFrame(f, &buf); err != nil {
 						res.Add(lp.Finding{Kind: "violation", What: "version-valid frame refused by the encoder: " + err.Error(), Input: id + " " + show.Frame(orig)})
